@@ -1,1 +1,148 @@
-def main : IO Unit := IO.println "driver C06: not built yet"
+import VncModel.Basic.Proto
+import VncModel.Input.Model
+/-! Line-protocol driver for the input-event model (C06). Same script as harness/c06.c. -/
+open VncModel VncModel.Input VncModel.Proto
+
+structure DState where
+  srv : Option Server := none
+  ever : List Nat := []          -- ids ever connected, ascending
+  reported : List Nat := []      -- ids whose `closed` line has been printed
+
+def insertSorted (x : Nat) : List Nat → List Nat
+  | [] => [x]
+  | y :: ys => if x ≤ y then x :: y :: ys else y :: insertSorted x ys
+
+def hex64 (v : UInt64) : String :=
+  String.ofList ((List.range 16).map fun i => hexChar ((v >>> (UInt64.ofNat (4 * (15 - i)))).toNat % 16))
+
+def fnvStep (h : UInt64) (b : UInt8) : UInt64 := (h ^^^ b.toUInt64) * 1099511628211
+def fnv (bs : List UInt8) : UInt64 := bs.foldl fnvStep 1469598103934665603
+
+def smNext (st : UInt64) : UInt64 × UInt64 :=
+  let s := st + 0x9E3779B97F4A7C15
+  let z := (s ^^^ (s >>> 30)) * 0xBF58476D1CE4E5B9
+  let z := (z ^^^ (z >>> 27)) * 0x94D049BB133111EB
+  (s, z ^^^ (z >>> 31))
+
+def smBytes (seed : UInt64) (n : Nat) : List UInt8 :=
+  let rec go : Nat → UInt64 → List UInt8 → List UInt8
+    | 0, _, acc => acc.reverse
+    | k + 1, st, acc => let (st', z) := smNext st; go k st' (z.toUInt8 :: acc)
+  go n seed []
+
+def showCb : Callback → String
+  | .kbd c d k => s!"kbd c{c} {d.toNat} {k}"
+  | .ptr c m x y => s!"ptr c{c} {m} {x} {y}"
+  | .cut c t => s!"cut c{c} {t.length} {hex64 (fnv t)}"
+
+def stName : St → String
+  | .pv => "pv" | .sec => "sec" | .auth => "auth" | .init => "init" | .normal => "normal"
+
+def showClient (s : Server) (i : Nat) : String :=
+  match s.find i with
+  | none => s!" c{i}:gone"
+  | some c =>
+    let o := if c.isOpen then "open" else "closed"
+    let v := if c.viewOnly then "vo" else "rw"
+    let oom := if c.outOfModel then ":out-of-model" else ""
+    s!" c{i}:{stName c.st}:{o}:{v}{oom}"
+
+/-- `closed cN` lines for newly closed clients + the `= ...` line -/
+def report (d : DState) (s : Server) (cbs : List Callback) : DState × List String :=
+  let newly := d.ever.filter fun i => !s.isLive i && !d.reported.contains i
+  let lines := cbs.map showCb ++ newly.map (fun i => s!"closed c{i}") ++
+    ["=" ++ String.join (d.ever.map (showClient s))]
+  ({ d with srv := some s, reported := d.reported ++ newly }, lines)
+
+def parseCuts (toks : List String) : List Nat :=
+  match toks.find? (·.startsWith "cuts=") with
+  | none => []
+  | some t => ((t.drop 5).toString.splitOn ",").filterMap (·.toNat?)
+
+def deliver (orc : AuthOracle) (d : DState) (s : Server) (i : Nat) (bs : List UInt8) (cuts : List Nat) :
+    DState × List String :=
+  let chunks := cutAt bs 0 cuts
+  let (s', cbs) := processChunks orc (bs.length + 1) s i [] chunks
+  report d s' cbs
+
+def noAuth : AuthOracle := fun _ => none
+
+def scaleHash (f t x0 x1 : Nat) : UInt64 :=
+  let rec go : Nat → Nat → UInt64 → UInt64
+    | 0, _, h => h
+    | k + 1, x, h =>
+      let v := scaleCoord x f t
+      let h := fnvStep h (UInt8.ofNat (v % 256))
+      let h := fnvStep h (UInt8.ofNat (v / 256 % 256))
+      let h := fnvStep h (UInt8.ofNat (v / 65536 % 256))
+      let h := fnvStep h (UInt8.ofNat (v / 16777216 % 256))
+      go k (x + 1) h
+  go (x1 - x0) x0 1469598103934665603
+
+def dstep (d : DState) (toks : List String) : DState × List String :=
+  match d.srv, toks with
+  | none, ["screen", w, h, pw, u8, df] =>
+    match w.toNat?, h.toNat?, pw.toNat?, u8.toNat?, df.toNat? with
+    | some w, some h, some pw, some u8, some df =>
+      if w < 1 ∨ h < 1 ∨ w > 4096 ∨ h > 4096 then (d, ["bad-op"]) else
+      ({ d with srv := some { cfg := ⟨w, h, pw != 0, u8 != 0, df⟩, now := 1000000000000 } }, ["ok"])
+    | _, _, _, _, _ => (d, ["bad-op"])
+  | none, _ => (d, ["bad-op"])
+  | some s, "conn" :: [id] =>
+    match id.toNat? with
+    | some i =>
+      if i ≥ 16 ∨ d.ever.contains i then (d, ["bad-op"]) else
+      report { d with ever := insertSorted i d.ever } (s.connect i) []
+    | none => (d, ["bad-op"])
+  | some s, "send" :: id :: hx :: rest =>
+    match id.toNat?, unhex? hx with
+    | some i, some bs =>
+      if !s.isLive i then (d, ["bad-op"]) else deliver noAuth d s i bs (parseCuts rest)
+    | _, _ => (d, ["bad-op"])
+  | some s, "sendgen" :: id :: hx :: n :: seed :: rest =>
+    match id.toNat?, unhex? hx, n.toNat?, seed.toNat? with
+    | some i, some bs, some n, some seed =>
+      if !s.isLive i ∨ n > 67108864 then (d, ["bad-op"])
+      else deliver noAuth d s i (bs ++ smBytes (UInt64.ofNat seed) n) (parseCuts rest)
+    | _, _, _, _ => (d, ["bad-op"])
+  | some s, "auth" :: id :: kind :: rest =>
+    match id.toNat? with
+    | some i =>
+      match s.find i with
+      | some c =>
+        if !c.isOpen ∨ c.st ≠ .auth then (d, ["bad-op"]) else
+        let orc? : Option AuthOracle :=
+          if kind = "full" then some (fun _ => some false)
+          else if kind = "view" then some (fun _ => some true)
+          else if kind = "bad" then some (fun _ => none) else none
+        match orc? with
+        | some orc => deliver orc d s i (List.replicate 16 0) (parseCuts rest)
+        | none => (d, ["bad-op"])
+      | none => (d, ["bad-op"])
+    | none => (d, ["bad-op"])
+  | some s, ["viewonly", id, v] =>
+    match id.toNat?, v.toNat? with
+    | some i, some v =>
+      if (s.find i).isNone then (d, ["bad-op"]) else report d (s.setViewOnly i (v != 0)) []
+    | _, _ => (d, ["bad-op"])
+  | some s, ["eof", id] =>
+    match id.toNat? with
+    | some i => if !s.isLive i then (d, ["bad-op"]) else report d (s.peerEof i) []
+    | none => (d, ["bad-op"])
+  | some s, ["pump"] =>
+    let (s', cbs) := s.pump
+    report d s' cbs
+  | some s, ["tick", ms] =>
+    match ms.toNat? with
+    | some ms => report d { s with now := s.now + 1000 * ms } []
+    | none => (d, ["bad-op"])
+  | some _, [op, f, t, x0, x1] =>
+    if op = "scalex" ∨ op = "scaley" then
+      match f.toNat?, t.toNat?, x0.toNat?, x1.toNat? with
+      | some f, some t, some x0, some x1 =>
+        if f < 1 ∨ t < 1 ∨ x1 > 65536 then (d, ["bad-op"]) else (d, [hex64 (scaleHash f t x0 x1)])
+      | _, _, _, _ => (d, ["bad-op"])
+    else (d, ["bad-op"])
+  | some _, _ => (d, ["bad-op"])
+
+def main : IO Unit := runDriver ({} : DState) dstep
